@@ -1,6 +1,7 @@
 package main
 
 import (
+	"errors"
 	"fmt"
 	"reflect"
 	"runtime"
@@ -123,6 +124,104 @@ func freshOps(t reflect.Type) []concOp {
 			v.Field(2).SetBytes([]byte("toolong"))
 			_, err := crypthash.Marshal(v.Interface())
 			return strip(fmt.Sprintf("%v", err))
+		}},
+	}
+}
+
+// freshBadOps: a never-seen struct type whose tags are invalid (group without param); every call must
+// report the error afresh, naming the type in the form (T, *T, **T) that was passed in THIS call.
+func freshBadOps() []concOp {
+	freshCounter++
+	t := reflect.StructOf([]reflect.StructField{
+		{Name: "HashPrefix", Type: reflect.TypeOf(""), Tag: `hash:""`},
+		{Name: "S1", Type: reflect.TypeOf(""), Tag: `hash:"group"`},
+		{Name: fmt.Sprintf("Ignored%d", freshCounter), Type: reflect.TypeOf(0), Tag: `hash:"-"`},
+	})
+	strip := func(s string) string {
+		for i := 0; i <= freshCounter; i++ {
+			s = strings.ReplaceAll(s, fmt.Sprintf("Ignored%d ", i), "IgnoredK ")
+		}
+		return s
+	}
+	show := func(err error) string {
+		var te *crypthash.TagParamError
+		st := "-"
+		if errors.As(err, &te) {
+			st = fmt.Sprint(te.Struct)
+		}
+		return strip(fmt.Sprintf("%v | struct=%s", err, st))
+	}
+	// two fields claiming one parameter name: TagParamError carrying the struct type
+	t2 := reflect.StructOf([]reflect.StructField{
+		{Name: "A", Type: reflect.TypeOf(""), Tag: `hash:"param:a"`},
+		{Name: "B", Type: reflect.TypeOf(""), Tag: `hash:"param:a"`},
+		{Name: fmt.Sprintf("Ignored%d", freshCounter), Type: reflect.TypeOf(0), Tag: `hash:"-"`},
+	})
+	mk := func(tag string, t reflect.Type) []concOp {
+		return []concOp{
+			{tag + " marshal T", func() string { _, err := crypthash.Marshal(reflect.New(t).Elem().Interface()); return show(err) }},
+			{tag + " marshal *T", func() string { _, err := crypthash.Marshal(reflect.New(t).Interface()); return show(err) }},
+			{tag + " unmarshal *T", func() string { return show(crypthash.Unmarshal("$t$x", reflect.New(t).Interface())) }},
+			{tag + " unmarshal **T", func() string {
+				pv := reflect.New(t)
+				ppv := reflect.New(pv.Type())
+				ppv.Elem().Set(pv)
+				return show(crypthash.Unmarshal("$t$x", ppv.Interface()))
+			}},
+		}
+	}
+	return append(mk("bad", t), mk("conflict", t2)...)
+}
+
+// freshEmbedOps: one never-seen struct type embedded in two different outer types; what is cached
+// for one outer type must not leak into (or be damaged by) the other.
+func freshEmbedOps() []concOp {
+	freshCounter++
+	inner := reflect.StructOf([]reflect.StructField{
+		{Name: "Rounds", Type: reflect.TypeOf(uint32(0)), Tag: `hash:"param:rounds"`},
+		{Name: "Salt", Type: reflect.TypeOf(""), Tag: `hash:""`},
+		{Name: fmt.Sprintf("Ignored%d", freshCounter), Type: reflect.TypeOf(0), Tag: `hash:"-"`},
+	})
+	outerA := reflect.StructOf([]reflect.StructField{
+		{Name: "HashPrefix", Type: reflect.TypeOf(""), Tag: `hash:""`},
+		{Name: "Inner", Type: inner, Anonymous: true},
+		{Name: "Sum", Type: reflect.TypeOf(""), Tag: `hash:""`},
+	})
+	outerB := reflect.StructOf([]reflect.StructField{
+		{Name: "HashPrefix", Type: reflect.TypeOf(""), Tag: `hash:""`},
+		{Name: "Cost", Type: reflect.TypeOf(uint8(0)), Tag: `hash:"param:c"`},
+		{Name: "Pad", Type: reflect.TypeOf(""), Tag: `hash:""`},
+		{Name: "Inner", Type: inner, Anonymous: true},
+	})
+	mkA := func() reflect.Value {
+		v := reflect.New(outerA).Elem()
+		v.Field(0).SetString("$a$")
+		v.Field(1).Field(0).SetUint(5000)
+		v.Field(1).Field(1).SetString("salt")
+		v.Field(2).SetString("sum")
+		return v
+	}
+	mkB := func() reflect.Value {
+		v := reflect.New(outerB).Elem()
+		v.Field(0).SetString("$b$")
+		v.Field(1).SetUint(4)
+		v.Field(2).SetString("pad")
+		v.Field(3).Field(0).SetUint(77)
+		v.Field(3).Field(1).SetString("tlas")
+		return v
+	}
+	return []concOp{
+		{"embed marshal A", func() string { s, err := crypthash.Marshal(mkA().Interface()); return fmt.Sprintf("%q %v", s, err != nil) }},
+		{"embed marshal B", func() string { s, err := crypthash.Marshal(mkB().Interface()); return fmt.Sprintf("%q %v", s, err != nil) }},
+		{"embed unmarshal A", func() string {
+			pv := reflect.New(outerA)
+			err := crypthash.Unmarshal("$a$rounds=9$ss$dd", pv.Interface())
+			return fmt.Sprintf("%v %v %v %v", pv.Elem().Field(1).Field(0).Uint(), pv.Elem().Field(1).Field(1).String(), pv.Elem().Field(2).String(), err != nil)
+		}},
+		{"embed unmarshal B", func() string {
+			pv := reflect.New(outerB)
+			err := crypthash.Unmarshal("$b$c=3$pp$rounds=8$tt", pv.Interface())
+			return fmt.Sprintf("%v %v %v %v %v", pv.Elem().Field(1).Uint(), pv.Elem().Field(2).String(), pv.Elem().Field(3).Field(0).Uint(), pv.Elem().Field(3).Field(1).String(), err != nil)
 		}},
 	}
 }
@@ -269,6 +368,14 @@ func suiteCache(c *Ctx) {
 	pool = append(pool, unmarshalOps(reflect.TypeOf(concA{}), []string{"$t$rounds=5$ab$wxyz", "$t$ab$wxy@", "$t$ab", "$q$ab$wxyz"})...)
 	pool = append(pool, unmarshalOps(reflect.TypeOf(concB{}), []string{"a=1,b=2$s", "a=1$s"})...)
 	pool = append(pool, unmarshalOps(reflect.TypeOf(concBad{}), []string{"x"})...)
+	{
+		// what the cold results look like (evidence; also guards against families that only ever fail)
+		var sample []string
+		for _, op := range append(freshBadOps(), freshEmbedOps()...) {
+			sample = append(sample, op.name+" => "+safely(op.run))
+		}
+		c.Extra["coldFamilyResults"] = sample
+	}
 	first := map[string]string{}
 	nseq := 40
 	if c.Thorough() {
@@ -276,18 +383,20 @@ func suiteCache(c *Ctx) {
 	}
 	for s := 0; s < nseq; s++ {
 		// a fresh sibling pair per sequence: ops on `ft` interleaved with the pool, compared with `sib` (cold, used once)
-		ft := freshType()
-		fops := freshOps(ft)
+		families := []func() []concOp{func() []concOp { return freshOps(freshType()) }, freshBadOps, freshEmbedOps}
+		inst := [][]concOp{families[0](), families[1](), families[2]()}
 		length := 5 + c.Rng.Intn(196)
 		if !c.Thorough() {
 			length = 5 + c.Rng.Intn(60)
 		}
 		for k := 0; k < length; k++ {
-			if c.Rng.Intn(5) == 0 {
+			if c.Rng.Intn(3) == 0 {
+				fam := c.Rng.Intn(len(families))
+				fops := inst[fam]
 				j := c.Rng.Intn(len(fops))
 				got := safely(fops[j].run)
-				sib := freshType()
-				exp := safely(freshOps(sib)[j].run)
+				exp := safely(families[fam]()[j].run)
+				c.Count("fresh-family-" + fmt.Sprint(fam))
 				if got != exp {
 					c.Fail("history-dependent", fmt.Sprintf("%s after %d operations: %q, on a never-seen identical type: %q", fops[j].name, k, got, exp),
 						map[string]string{"suite": "cache", "op": fops[j].name})
